@@ -1,7 +1,10 @@
 (* C12 - A view read returns exactly the requested, filtered rows and columns.
    Statements only; the model is theories/PopRead.v (get / subview / _get_view as they are in /repo/src today, i.e.
    with fix 394c1d50: the default `tracked == True` filter is applied to the WHOLE user query - before that commit
-   C12_tracked_default was refuted by a query with a top-level `or`), the proofs are in theories/PopReadProofs.v.
+   C12_tracked_default was refuted by a query with a top-level `or` (F-P) - and with fix 8679fa8f: only a reference to
+   the tracked COLUMN counts as "the query mentions tracked" - before that commit the model's syntactic
+   `mentions_tracked` did not describe the code for names such as tracked_by, constants 'tracked' and comments (F-W)),
+   the proofs are in theories/PopReadProofs.v.
    "The returned frame is a copy" cannot be expressed over Gallina values: it is TESTED by the correspondence driver
    (harness/props/c12.py, copy probe), not proved.                                                                  *)
 From Viv Require Import Common PopRead PopReadProofs.
@@ -87,6 +90,10 @@ Theorem C12_missing_column : forall t v idx q c, In c (view_columns t v) -> ~ In
    get t v idx q = Rejected EPopulation).
 Proof. exact get_missing_column. Qed.
 
+(* `column in [k1; ...]` is the disjunction of the equalities. *)
+Theorem C12_in_is_disjunction : forall cs r c ks, eval cs r (QIn c ks) = eval cs r (in_as_or c ks).
+Proof. exact eval_in_as_or. Qed.
+
 (* History.  After ANY sequence of updates (accepted ones are applied, refused ones leave the table alone), a read
    filters on, and returns, the CURRENT cells: the value of the last accepted update that addressed the cell, the
    original value if none did. *)
@@ -126,6 +133,18 @@ Example ex_tracked_in_columns :    (* the view includes tracked: simulant 1 is r
 Proof. vm_compute. reflexivity. Qed.
 Example ex_query_mentions_tracked :
   get ex_t (mk_view [3] (QCmp 0 CEq (Bv false))) [0; 1; 2; 3] QTrue = Ok ([3], [(1, [Sv 1])]).
+Proof. vm_compute. reflexivity. Qed.
+(* F-W's witnesses: column 9 = tracked_by, string 5 = 'tracked'; neither refers to column 0, so the default applies *)
+Definition ex_t2 : table :=
+  mkT [(0, 0); (1, 1); (9, 1); (3, 3)]
+      [(0, [Bv true; Iv 1; Iv 0; Sv 5]); (1, [Bv false; Iv 2; Iv 1; Sv 0]); (2, [Bv true; Iv 3; Iv 2; Sv 6])].
+Example ex_longer_name : get ex_t2 (mk_view [1] (QCmp 9 CGe (Iv 0))) [0; 1; 2] QTrue = Ok ([1], [(0, [Iv 1]); (2, [Iv 3])]).
+Proof. vm_compute. reflexivity. Qed.
+Example ex_string_constant : get ex_t2 (mk_view [1] (QCmp 3 CNe (Sv 5))) [0; 1; 2] QTrue = Ok ([1], [(2, [Iv 3])]).
+Proof. vm_compute. reflexivity. Qed.
+Example ex_in_and_column_vs_column :
+  get ex_t2 (mk_view [1; 0] (QOr (QIn 3 [Sv 5; Sv 0]) (QCmpC 9 CGt 1))) [2; 1; 0] (QNot (QIn 1 [Fv 4; Iv 7]))
+  = Ok ([1; 0], [(1, [Iv 2; Bv false])]).
 Proof. vm_compute. reflexivity. Qed.
 Example ex_full_view : get ex_t (mk_view [] QTrue) [1] (QCmp 3 CNe (Sv 0)) = Ok ([0; 1; 3], [(1, [Bv false; Iv 5; Sv 1])]).
 Proof. vm_compute. reflexivity. Qed.
@@ -177,6 +196,7 @@ Print Assumptions C12_subview.
 Print Assumptions C12_subview_query.
 Print Assumptions C12_subview_read.
 Print Assumptions C12_missing_column.
+Print Assumptions C12_in_is_disjunction.
 Print Assumptions C12_after_history.
 Print Assumptions C12_current_cell.
 Print Assumptions C12_last_write_wins.
